@@ -7,6 +7,15 @@ TRUSTED_COMMON = [
 ]
 
 PROPS = {
+    "C10": {
+        "title": "Validator-set history is a replayable function of the committed blocks",
+        "design_ref": "DESIGN.md §3 C10",
+        "technique": "Lean 4 proof that the validator-set table built by the commit callback equals the replay specification (activation delay regenerated) + differential correspondence and independent replay oracle on real cores",
+        "level_text": "Proof (Lean 4): for every genesis set and every sequence of committed blocks with strictly increasing round received (C02), the set PeerSetCache.Get returns for round r is the genesis set modified in block order by exactly the accepted receipts of the blocks with round received + 6 <= r (table_is_replay), the node's latest validator set is the full replay, committing a block never changes the set of a round below its round received + 6 (change_never_retroactive), the operational model's commit callback is one step of that table construction and a block's peer list is the table's set at its round received. Tied to the code by G2 runs with successive / simultaneous / refused joins, leave, re-join and a late joiner: every member's GetPeerSet(r) vs the Lean table and vs an independent Go replay of its delivered blocks; PeersHash of every block; histories across members. PARTIAL: values memoised before an entry existed (the R+6 assumption) are covered by the C01 oracle, not by a theorem.",
+        "level_note": "Trusted: Lean kernel; extractor (round received + 6); the table model (Babble.HG.buildTable / peersAtTbl) tied by correspondence.",
+        "trusted_base": ["PeerSetCache and processAcceptedInternalTransactions are modelled by buildTable / peersAtTbl and tied by correspondence on real cores"],
+        "assumptions": ["delivered blocks have strictly increasing, non-negative round received (C02: checked by the C02 oracle; proved for indexes, not yet for round received)"],
+    },
     "C09": {
         "title": "Block signatures and anchor",
         "design_ref": "DESIGN.md §3 C09",
